@@ -289,6 +289,16 @@ def stress_shapes(limit=4096):
     ]
     for name, d, text in fam:
         yield name, d, text
+    # staircase families: every line is nested one level deeper and starts with two markers, so that each level
+    # holds a list/quote followed by a different container (work must not double per level)
+    for depth in (8, 14, 20, 26, 40, 60):
+        for a, b in (('*', '-'), ('-', '*'), ('+', '1.'), ('1.', '-'), ('>', '-'), ('-', '>'), ('1)', '1.'), ('*', '*')):
+            lines = ['%s a' % b]
+            ind = 0
+            for k in range(1, depth):
+                lines.append(' ' * ind + '%s %s a' % (a, b))
+                ind += len(a) + 1
+            yield 'staircase-%s-%s-%d' % (a, b, depth), depth, '\n'.join(lines)[:limit] + '\n'
     # nesting families at depth exactly 100 and 101 (and a few small ones)
     for depth in (1, 2, 10, 50, 99, 100, 101):
         yield 'nest-quote-%d' % depth, depth, '>' * depth + ' a\n'
@@ -301,6 +311,25 @@ def stress_shapes(limit=4096):
         yield 'nest-link-img-%d' % depth, depth, '![' * depth + 'a' + '](u)' * depth + '\n'
         yield 'nest-strike-%d' % depth, depth, '~~' * depth + 'a' + '~~' * depth + '\n'
         yield 'nest-mixed-%d' % depth, depth, ''.join(('> ', '- ')[k % 2] for k in range(depth)) + 'a\n'
+
+
+def nested_soup(rng, maxdepth=40):
+    """Random deeply nested containers: line k is indented to (roughly) the content offset of line k-1 and starts with one to
+    three container markers of random kinds."""
+    markers = ['-', '*', '+', '1.', '2)', '>', '10.', '-', '*']
+    depth = rng.randint(3, maxdepth)
+    lines = []
+    ind = 0
+    for k in range(depth):
+        ms = [rng.choice(markers) for _ in range(rng.choice((1, 1, 2, 2, 3)))]
+        jitter = rng.choice((0, 0, 0, 1, -1, 2))
+        lines.append(' ' * max(0, ind + jitter) + ' '.join(ms) + ' ' + rng.choice(('a', 'a b', '', '`c`', '# h', '```')))
+        ind += len(ms[0]) + 1 if rng.random() < 0.8 else 0
+        if rng.random() < 0.1:
+            lines.append('')
+        if rng.random() < 0.05:
+            ind = max(0, ind - rng.randint(1, 6))
+    return '\n'.join(lines)[:4096] + '\n'
 
 
 def depth_bound(text):
